@@ -7,17 +7,18 @@ From Sdfx Require Import Sys.SysLang Sys.Buffer Sys.BufferProg Generated.SysProg
 From Sdfx Require Import Sys.Pipeline Sys.PipeProg Sys.SysProgsC12.
 Import ListNotations.
 
+(* decided for the body the source has, whatever its spelling (Sys/BufferProg.v: buffer_method) *)
 Lemma T3_Write_method : is_write_method T3_Write tBufferSize.
-Proof. reflexivity. Qed.
+Proof. unfold tBufferSize. buffer_method buffer_write_sem. Qed.
 
 Lemma T3_Close_method : is_close_method T3_Close.
-Proof. reflexivity. Qed.
+Proof. buffer_method buffer_close_sem. Qed.
 
 Lemma L2_Write_method : is_write_method L2_Write lBufferSize.
-Proof. reflexivity. Qed.
+Proof. unfold lBufferSize. buffer_method buffer_write_sem. Qed.
 
 Lemma L2_Close_method : is_close_method L2_Close.
-Proof. reflexivity. Qed.
+Proof. buffer_method buffer_close_sem. Qed.
 
 (* the statement of Props/C11.v about a Write / Close pair of the source *)
 Definition buffer_source_ok (pw pc : list stmt) (N : nat) : Prop :=
@@ -30,9 +31,9 @@ Definition buffer_source_ok (pw pc : list stmt) (N : nat) : Prop :=
 
 Lemma buffer_source_ok_intro pw pc N : is_write_method pw N -> is_close_method pc -> buffer_source_ok pw pc N.
 Proof.
-  intros Hw Hc. split.
-  - exists (write_body N). split; [exact Hw|]. split; [reflexivity|]. intros A s items. apply (write_body_is_step N s items).
-  - exists close_body. split; [exact Hc|]. split; [reflexivity|]. intros A s. apply (close_body_is_step N s).
+  intros (bw & Ew & Pw & Sw) (bc & Ec & Pc & Sc). split.
+  - exists bw. split; [exact Ew|]. split; [exact Pw|]. intros A s items. apply (Sw A s items).
+  - exists bc. split; [exact Ec|]. split; [exact Pc|]. intros A s. apply (Sc A N s).
 Qed.
 
 Lemma T3_source_ok : buffer_source_ok T3_Write T3_Close tBufferSize.
